@@ -810,23 +810,36 @@ func emptyMgmt(c pomCase, variant string) int {
 	return 3 + mr.Intn(5)
 }
 
-// pluginTwin names the managed plugin that is declared a second time under <build><plugins> ("" = none).  Disabled here: the unrepaired
-// writer patches the twin along with the managed plugin (see 1-verif.diff of the coverage round).
-func pluginTwin(c pomCase) string { return "" }
+// shapes: layout variants that the writer of the unrepaired tree does not handle; each is switched on by the verif diff of its repair.
+// A variant is drawn from the pom part of the case line (its own generator per name, so that the other layout choices stay as they are).
+var shapes = map[string]bool{
+	"exclusion-bar": true, // fix <commit1>: Write panicked (deps.dev cannot decode the exclusions attribute)
+	"empty-prop-selfclosing": true, // fix <commit2>: <sfx/> was patched into <sfx/>.1
+	"blank-type": true, // fix <commit3>: <type> </type> made the writer miss the dependency
+	"project-tag": true, // fix <commit4>: the start tag of <project> was searched as text
+	"foreign": true, // fix <commit5>: sections were handled at any depth
+}
 
-// twinBlock cuts the <build><plugins> … </plugins> block that precedes <pluginManagement> out of a rendered pom ("" if there is none).
-func twinBlock(s string) string {
-	i := strings.Index(s, "<build>")
-	j := strings.Index(s, "<pluginManagement>")
-	if i < 0 || j < i {
-		return ""
+func variantOn(c pomCase, name string, oneIn int) bool {
+	return shapes[name] && layoutRng(layoutKey(c)+"#"+name).Intn(oneIn) == 0
+}
+
+// foreignText collects what stands between the markers <!--foreign--> and <!--/foreign-->: copies of requirements and properties in
+// places Read takes nothing from (a plugin under <build><plugins>, a profile's plugin, a <developer>); no update is addressed to them.
+func foreignText(s string) string {
+	var out []string
+	for {
+		i := strings.Index(s, "<!--foreign-->")
+		if i < 0 {
+			return strings.Join(out, "\x00")
+		}
+		j := strings.Index(s[i:], "<!--/foreign-->")
+		if j < 0 {
+			return strings.Join(out, "\x00") + "\x00unterminated"
+		}
+		out = append(out, s[i:i+j])
+		s = s[i+j:]
 	}
-	s = s[i:j]
-	a, b := strings.Index(s, "<plugins>"), strings.LastIndex(s, "</plugins>")
-	if a < 0 || b < a {
-		return ""
-	}
-	return s[a:b]
 }
 
 // renderPom writes the abstract pom as XML. variant "c" / "d" put a comment / CDATA inside the first
@@ -835,6 +848,7 @@ func renderPom(c pomCase, lr *rand.Rand, variant string) string {
 	commentInVersion, cdataInVersion := variant == "c", variant == "d"
 	shape := emptyMgmt(c, variant)
 	wsr := layoutRng(layoutKey(c) + "#wsid")
+	exr := layoutRng(layoutKey(c) + "#dep-extras")
 	var sb strings.Builder
 	ind := []string{"  ", "    ", "\t"}[lr.Intn(3)]
 	if lr.Intn(2) == 0 {
@@ -843,10 +857,21 @@ func renderPom(c pomCase, lr *rand.Rand, variant string) string {
 	if lr.Intn(3) == 0 {
 		sb.WriteString("<!-- a comment before the project -->\n")
 	}
+	ptag := 0
+	if variantOn(c, "project-tag", 4) {
+		ptag = 1 + layoutRng(layoutKey(c)+"#project-tag-kind").Intn(2)
+	}
+	if ptag == 1 { // text that looks like the start tag, before the real one
+		sb.WriteString("<!-- the <project> element follows -->\n")
+	}
+	attr := ""
+	if ptag == 2 { // ">" inside an attribute value
+		attr = " xml:lang=\"en\" note=\"a > b\""
+	}
 	if lr.Intn(2) == 0 {
-		sb.WriteString("<project xmlns=\"http://maven.apache.org/POM/4.0.0\" xmlns:xsi=\"http://www.w3.org/2001/XMLSchema-instance\"\n         xsi:schemaLocation=\"http://maven.apache.org/POM/4.0.0 http://maven.apache.org/xsd/maven-4.0.0.xsd\">\n")
+		sb.WriteString("<project xmlns=\"http://maven.apache.org/POM/4.0.0\" xmlns:xsi=\"http://www.w3.org/2001/XMLSchema-instance\"\n         xsi:schemaLocation=\"http://maven.apache.org/POM/4.0.0 http://maven.apache.org/xsd/maven-4.0.0.xsd\"" + attr + ">\n")
 	} else {
-		sb.WriteString("<project>\n")
+		sb.WriteString("<project" + attr + ">\n")
 	}
 	w := func(depth int, s string) { sb.WriteString(strings.Repeat(ind, depth) + s + "\n") }
 	w(1, "<modelVersion>4.0.0</modelVersion>")
@@ -898,6 +923,8 @@ func renderPom(c pomCase, lr *rand.Rand, variant string) string {
 		w(depth+1, "<version>"+v+"</version>")
 		if d.typ != "" {
 			w(depth+1, "<type>"+d.typ+"</type>")
+		} else if shapes["blank-type"] && exr.Intn(8) == 0 {
+			w(depth+1, "<type> </type>") // reads as no type
 		}
 		if d.cls != "" {
 			w(depth+1, "<classifier>"+d.cls+"</classifier>")
@@ -907,6 +934,9 @@ func renderPom(c pomCase, lr *rand.Rand, variant string) string {
 		}
 		if lr.Intn(6) == 0 {
 			w(depth+1, "<exclusions><exclusion><groupId>ex.g</groupId><artifactId>ex-a</artifactId></exclusion></exclusions>")
+		} else if shapes["exclusion-bar"] && exr.Intn(6) == 0 {
+			// an exclusion whose coordinates deps.dev's dep.Type cannot be decoded from (its separators are "|" and ":")
+			w(depth+1, "<exclusions><exclusion><groupId>ex|g</groupId><artifactId>ex-a</artifactId></exclusion></exclusions>")
 		}
 		w(depth, "</dependency>")
 	}
@@ -920,6 +950,10 @@ func renderPom(c pomCase, lr *rand.Rand, variant string) string {
 		if len(props) > 0 {
 			w(depth, "<properties>")
 			for _, p := range props {
+				if p.value == "" && variantOn(c, "empty-prop-selfclosing", 2) {
+					w(depth+1, "<"+p.name+"/>")
+					continue
+				}
 				w(depth+1, "<"+p.name+">"+xmlEsc(p.value)+"</"+p.name+">")
 				if lr.Intn(5) == 0 {
 					w(depth+1, "<!-- property comment -->")
@@ -997,6 +1031,19 @@ func renderPom(c pomCase, lr *rand.Rand, variant string) string {
 			writeDeps()
 		}
 	}
+	if variantOn(c, "foreign", 2) {
+		var ups []string
+		for _, p := range c.props {
+			if p.origin == "" {
+				ups = append(ups, "<"+p.name+">"+xmlEsc(p.value)+"</"+p.name+">")
+			}
+		}
+		if len(ups) > 0 { // <properties> of a developer: the same names and values as the project's, but no properties of the project
+			w(1, "<!--foreign-->")
+			w(1, "<developers><developer><id>dev</id><properties>"+strings.Join(ups, "")+"</properties></developer></developers>")
+			w(1, "<!--/foreign-->")
+		}
+	}
 	section(1, "")
 	var profs []string
 	seen := map[string]bool{}
@@ -1033,6 +1080,19 @@ func renderPom(c pomCase, lr *rand.Rand, variant string) string {
 				w(3, "<id>"+strings.TrimPrefix(id, "profile@")+"</id>")
 			}
 			section(3, id)
+			if variantOn(c, "foreign", 2) {
+				var ds []string
+				for _, d := range c.deps {
+					if d.origin == id {
+						ds = append(ds, "<dependency><groupId>"+d.g+"</groupId><artifactId>"+d.a+"</artifactId><version>"+xmlEsc(d.ver)+"</version>"+map[bool]string{true: "<type>" + d.typ + "</type>"}[d.typ != ""]+map[bool]string{true: "<classifier>" + d.cls + "</classifier>"}[d.cls != ""]+"</dependency>")
+					}
+				}
+				if len(ds) > 0 { // a plugin of the profile with the profile's own dependencies as plugin dependencies
+					w(3, "<!--foreign-->")
+					w(3, "<build><plugins><plugin><artifactId>q</artifactId><dependencies>"+strings.Join(ds, "")+"</dependencies></plugin></plugins></build>")
+					w(3, "<!--/foreign-->")
+				}
+			}
 			w(2, "</profile>")
 		}
 		w(1, "</profiles>")
@@ -1054,10 +1114,12 @@ func renderPom(c pomCase, lr *rand.Rand, variant string) string {
 		}
 	} else {
 		w(1, "<build>")
-		if twin := pluginTwin(c); twin != "" {
+		if variantOn(c, "foreign", 2) {
 			// the first managed plugin once more under <build><plugins>, with the same dependencies: Read does not list these, so no
 			// update is addressed to them and they must stay as they are
+			twin := plugs[0]
 			g, a, _ := strings.Cut(strings.TrimPrefix(twin, "plugin@"), ":")
+			w(2, "<!--foreign-->")
 			w(2, "<plugins>")
 			w(3, "<plugin>")
 			if g != "" {
@@ -1073,6 +1135,7 @@ func renderPom(c pomCase, lr *rand.Rand, variant string) string {
 			w(4, "</dependencies>")
 			w(3, "</plugin>")
 			w(2, "</plugins>")
+			w(2, "<!--/foreign-->")
 		} else if noise { // a plugin outside pluginManagement, under another name: Read does not list its dependencies
 			w(2, "<plugins><plugin><groupId>other.g</groupId><artifactId>other-plugin</artifactId><version>3.1</version></plugin></plugins>")
 		}
@@ -1364,7 +1427,7 @@ func runPom(c pomCase, variant string) (before string, reply string) {
 			tok = hx.B(sameTokens(s.src, string(b)))
 		}
 		return fmt.Sprintf("r=ok deps=%s props=%s reqs=%s rb=%s id=%s tok=%s rest=%s sc=%s", post.deps, post.props, post.reqs, pre.reqs, id, tok, hx.B(maskValues(src) == maskValues(string(b))), sc) + map[bool]string{true: " view=differs", false: ""}[viewDiffers] +
-			map[bool]string{true: " twin=" + hx.B(twinBlock(s.src) == twinBlock(string(b))), false: ""}[twinBlock(s.src) != ""]
+			map[bool]string{true: " foreign=" + hx.B(foreignText(s.src) == foreignText(string(b))), false: ""}[foreignText(s.src) != ""]
 	})
 	return before, reply
 }
@@ -1423,7 +1486,7 @@ func sameTokens(a, b string) bool {
 }
 
 var reVersion = regexp.MustCompile(`<version>[^<]*</version>`)
-var reProp = regexp.MustCompile(`<(v|w|lib\.version|rev)>[^<]*</(v|w|lib\.version|rev)>`)
+var reProp = regexp.MustCompile(`<(v|w|lib\.version|rev|sfx|grp)>[^<]*</(v|w|lib\.version|rev|sfx|grp)>|<sfx/>`)
 
 // maskValues blanks every <version> text and every generated property value: what is left must be
 // byte-identical before and after a write that only changes versions.
@@ -1464,7 +1527,14 @@ func genPom(r *rand.Rand) pomCase {
 			}
 		}
 	}
+	sfx := r.Intn(8) == 0 // a property with an EMPTY value, used as a version suffix (1.0${sfx})
+	if sfx {
+		c.props = append(c.props, pprop{"", "sfx", ""})
+	}
 	version := func(avail []string) string {
+		if sfx && r.Intn(3) == 0 {
+			return pomVers[r.Intn(5)] + "${sfx}"
+		}
 		x := r.Intn(20)
 		if len(avail) == 0 || x < 9 {
 			return pomVers[r.Intn(len(pomVers))]
